@@ -85,10 +85,13 @@ def hddma_spec(xs, ad, aw, two, m_min):
             yield (False, w)
 
 
-def hddmw_spec(xs, ad, aw, two, lam, m_min, cut_conf=None):
+def hddmw_spec(xs, ad, aw, two, lam, m_min, cut_conf=None, init="zero"):
     """zero-initialised EWMAs; McDiarmid bound sqrt((b1+b2) ln(1/alpha)/2), strict >.  `cut_conf`: the confidence of the bound that tracks the running cut
     points - the property does not fix it (the implementation uses lambda_, the paper and MOA the drift confidence); default lambda_."""
     cc = lam if cut_conf is None else cut_conf
+    if init == "first":
+        yield from hddmw_spec_first(xs, ad, aw, two, lam, m_min, cc)
+        return
     def fresh():
         return [0.0, 1.0]
 
@@ -142,6 +145,69 @@ def hddmw_spec(xs, ad, aw, two, lam, m_min, cut_conf=None):
             yield (False, warning)
 
 
+def hddmw_spec_first(xs, ad, aw, two, lam, m_min, cc):
+    """the same rule with the estimators of Frias-Blanco et al. / MOA's HDDM_W_Test: an EWMA starts AT the first value of its sample (bound condition 1), and a
+    test with an empty sample on one side of the cut point gives no evidence.  The property fixes the McDiarmid test and its confidences, not the initial value of the
+    estimators (the unchanged code starts them at 0: KF-C01-1, KF-C04-1)."""
+    def fresh():
+        return [0.0, 1.0, 0]
+
+    def upd(s, v):
+        if s[2] == 0:
+            s[0], s[1] = float(v), 1.0
+        else:
+            s[0] = s[0] + lam * (v - s[0])
+            s[1] = lam * lam + (1 - lam) * (1 - lam) * s[1]
+        s[2] += 1
+
+    def bound(b, a):
+        return math.sqrt(b * math.log(1 / a) / 2)
+
+    def reset():
+        return fresh(), fresh(), fresh(), math.inf, fresh(), fresh(), -math.inf
+
+    tot, i1, i2, ic, d1, d2, dc = reset()
+    for t, v in enumerate(xs, 1):
+        upd(tot, v)
+        e = bound(tot[1], cc)
+        if ic != math.inf and near(tot[0] + e, ic):
+            yield None
+            return
+        if tot[0] + e < ic:
+            ic, i1, i2 = tot[0] + e, list(tot), fresh()
+        else:
+            upd(i2, v)
+        if two:
+            if dc != -math.inf and near(tot[0] - e, dc):
+                yield None
+                return
+            if tot[0] - e > dc:
+                dc, d1, d2 = tot[0] - e, list(tot), fresh()
+            else:
+                upd(d2, v)
+        if t < m_min:
+            yield (False, False)
+            continue
+
+        def test(lo, hi, a):
+            if lo[2] == 0 or hi[2] == 0:
+                return False
+            diff, b = hi[0] - lo[0], bound(lo[1] + hi[1], a)
+            return None if near(diff, b) else diff > b
+
+        r = [test(i1, i2, ad), test(i1, i2, aw)] + ([test(d2, d1, ad), test(d2, d1, aw)] if two else [False, False])
+        if any(x is None for x in r):
+            yield None
+            return
+        drift = r[0] or r[2]
+        warning = (r[1] or r[3]) and not drift
+        if drift:
+            yield (True, False)
+            tot, i1, i2, ic, d1, d2, dc = reset()
+        else:
+            yield (False, warning)
+
+
 def explained_by_other_cut_confidence(cls, p, xs):
     """Is the implementation's whole verdict trace on `xs` the McDiarmid rule with the running cut points tracked at the drift or the warning confidence (the choices of
     Frias-Blanco et al. / MOA) instead of lambda_?  Returns the name of that confidence or None."""
@@ -151,10 +217,16 @@ def explained_by_other_cut_confidence(cls, p, xs):
     for x in xs:
         d.update(value=x)
         got.append(dets.flags(cls, d))
-    for name in ("alpha_d", "alpha_w"):
-        want = list(hddmw_spec(xs, fp["alpha_d"], fp["alpha_w"], fp["two_sided_test"], fp["lambda_"], fp["min_num_instances"], cut_conf=fp[name]))
-        if None not in want and want == got:
-            return name
+    for init in ("zero", "first"):
+        for name in ("lambda_", "alpha_d", "alpha_w"):
+            if init == "zero" and name == "lambda_":
+                continue        # the model's own variant
+            want = list(hddmw_spec(xs, fp["alpha_d"], fp["alpha_w"], fp["two_sided_test"], fp["lambda_"], fp["min_num_instances"], cut_conf=fp[name], init=init))
+            tied = None in want
+            if tied:            # the variant's own trace meets a near-tie before the end: undecided from there on
+                want = want[: want.index(None)]
+            if want and want == got[: len(want)] and (len(want) == len(got) or tied):
+                return name + (" with the estimators started at the first value of their sample (Frias-Blanco et al., MOA)" if init == "first" else "")
     return None
 
 
